@@ -79,6 +79,25 @@ def smooth_exprs(rng, elt, m, n):
         es.append(e)
     return es
 
+def sparse_exprs(rng, elt, m, n):
+    """structurally sparse maps: each component is a sum of 1..3 monomials of degree 1..3 in randomly chosen
+    variables, so that some variables are absent from some or all components (zero entries / zero columns)"""
+    es = []
+    for i in range(m):
+        e = None
+        for _ in range(rng.range(1, 3)):
+            t = F.lit(elt, dyval(rng, elt, -2, 2, 4))
+            for _ in range(rng.range(1, 3)):
+                t = F.mul(t, F.V(rng.below(n)))
+            e = t if e is None else F.add(e, t)
+        es.append(e)
+    return es
+
+def sparse_point(rng, elt, n):
+    """dyadic coordinates, zero with probability 1/3 (a product x_p*x_q is then insensitive to x_p)"""
+    zero = complex(0.0, 0.0) if elt == 'cplx' else 0.0
+    return [zero if rng.chance(1, 3) else dyval(rng, elt, -4, 4, 16) for _ in range(n)]
+
 def gen_delta(rng, which):
     if which == "dec": return 1e-8
     return 2.0 ** -rng.range(4, 26)
@@ -106,6 +125,22 @@ def generate(rng, tier):
         x = [dyval(g, elt, -4, 4, 16) if g.chance(1, 2) else (dyval(g, elt, -4, 4, 16) + (g.unit() - 0.5) * 0.1) for _ in range(n)]
         delta = gen_delta(g, "dec" if g.chance(1, 4) else "dy")
         cases.append(mk(elt, x, delta, es, {"kind": "smooth"}, "smooth-" + elt))
+    # structurally sparse Jacobians: absent variables, zero columns, products at points with zero coordinates
+    g = rng.fork("sparse")
+    for t in range(80 if tier == "quick" else 600):
+        elt = 'f64' if t % 3 != 2 else 'cplx'
+        m, n = g.range(1, 4), g.range(2, 6)
+        if t % 4 == 0:      # affine with zeroed columns / entries
+            c = affine_case(g, elt, m, n, gen_delta(g, "dy"), True, "affine-sparse-" + elt)
+            M = list(c.meta["M"]); zero = 0.0 * M[0]
+            for j in range(n):
+                if g.chance(1, 3):
+                    for i in range(m): M[i * n + j] = zero
+            es = affine_exprs(elt, M, c.meta["c"], m, n)
+            cases.append(mk(elt, c.meta["point"], c.meta["delta"], es, {"kind": "affine", "M": M, "c": c.meta["c"], "dyadic": True}, "affine-sparse-" + elt))
+        else:
+            es = sparse_exprs(g, elt, m, n)
+            cases.append(mk(elt, sparse_point(g, elt, n), gen_delta(g, "dec" if g.chance(1, 5) else "dy"), es, {"kind": "smooth"}, "smooth-sparse-" + elt))
     # degenerate shapes: no unknowns / no components
     g = rng.fork("edge")
     for elt in ('f64', 'cplx'):
